@@ -29,6 +29,7 @@ Init == k = 1
 Next == /\ k <= Len(Events)
         /\ LET e == Events[k] IN
            CASE e.kind = "str" -> Must(StrOK(e.t, e.v, e.s, e.man), [what |-> "String()", t |-> e.t, v |-> e.v, observed |-> e.s])
+             [] e.kind = "stable" -> Must(e.equal = 1, [what |-> "String() is not a function of the value: the printed form changes after the library has been used", detail |-> e.detail])
              [] e.kind = "regen" -> Must(e.equal = 1, [what |-> "types_string.go is not what the repository's stringer generates from types.go", detail |-> e.detail])
         /\ TLCSet(1, TLCGet(1) + 1)
         /\ k' = k + 1
